@@ -159,7 +159,26 @@ impl Gen<'_> {
                         format!("{}{tail}", self.w())
                     })
                     .collect();
-                match self.rng.below(4) {
+                match self.rng.below(6) {
+                    // a command line that ends in a backslash which does not
+                    // continue it (the end of a comment; an escaped backslash):
+                    // the next line is data, not part of the command
+                    4 => {
+                        let k = self.tell();
+                        u.lines.push(format!("read a; echo \"[$a]\"; tell {k} # note \\"));
+                        u.lines.push(d.join(" "));
+                        u.out.push(format!("[{}]", d.join(" ")));
+                        u.tells.push((k, 1));
+                        u.data = vec![1];
+                    }
+                    5 => {
+                        let k = self.tell();
+                        u.lines.push(format!("read a; tell {k}; echo \"[$a]\" q\\\\"));
+                        u.lines.push(d.join(" "));
+                        u.out.push(format!("[{}] q\\", d.join(" ")));
+                        u.tells.push((k, 1));
+                        u.data = vec![1];
+                    }
                     0 => {
                         let k = self.tell();
                         u.lines.push(format!("read a; echo \"[$a]\"; tell {k}"));
